@@ -635,6 +635,10 @@ async def _timer(
         )
         patch = cause.patch = patches.Patch(remaining_patch, body=body)
 
+        # A failure for good (a permanent error, or exhausted retries/timeout) stops the timer forever.
+        if state.done and state.counts.failure:
+            break
+
         # For temporary errors, override the schedule by the one provided by errors themselves.
         # It can be either a delay from TemporaryError, or a backoff for an arbitrary exception.
         if not state.done:
